@@ -151,7 +151,7 @@ func cmdCheck(args []string) int {
 	}
 	id := rest[0]
 	start := time.Now()
-	b, err := prepare(instrProps[id], nil)
+	b, err := prepare(instrProps[id], overlayFromEnv())
 	if err != nil {
 		fmt.Fprintf(os.Stderr, "ERROR %v\n", err)
 		return 2
@@ -555,7 +555,7 @@ func cmdReplay(args []string) int {
 		return 2
 	}
 	id, _ := v["property"].(string)
-	b, err := prepare(instrProps[id], nil)
+	b, err := prepare(instrProps[id], overlayFromEnv())
 	if err != nil {
 		fmt.Fprintf(os.Stderr, "ERROR %v\n", err)
 		return 2
@@ -661,6 +661,23 @@ func cmdTranscheck() int {
 		return 2
 	}
 	return 0
+}
+
+// overlayFromEnv: VERIF_OVERLAY="/repo/flyt.go=/some/dir/flyt.go,..." checks the tree with those
+// files substituted, /repo itself untouched (used by scripts/automut.py to judge one-token
+// mutants of the library in bulk; never set by the registered commands).
+func overlayFromEnv() map[string]string {
+	v := os.Getenv("VERIF_OVERLAY")
+	if v == "" {
+		return nil
+	}
+	m := map[string]string{}
+	for _, kv := range strings.Split(v, ",") {
+		if i := strings.Index(kv, "="); i > 0 {
+			m[kv[:i]] = kv[i+1:]
+		}
+	}
+	return m
 }
 
 func cmdMutant(args []string) int {
